@@ -211,6 +211,11 @@ def c16(seed, n, pool=None, processes=3):
             for where in ('struct S<T> { #[educe(%s)] a: T }', 'enum E<T> { #[educe(%s)] A(T) }', 'enum E<T> { A(#[educe(%s)] T) }'):
                 for bad in ('%s = 1', '%s(foo)', '%s(bound(*))', '%s(ignore, ignore)'):
                     cases.append(('c16g-%d' % gk, _Txt('#[educe(%s)]\n%s' % (ok, where % (bad % t))))); gk += 1
+    # several invalid constructs at once: which one the diagnostic names must not vary either
+    for a in ('Debug, Clone, Hash)]\n#[educe(Hash, Debug, Clone', 'Debug, Debug, Clone, Clone', 'PartialEq, Eq, Eq, PartialEq, Hash, Hash',
+              'Foo, Bar, Debug', 'Debug(foo, bar), Clone(baz)', 'Into(u8), Into(u8), Debug, Debug'):
+        for body in ('struct S { a: u8 }', 'enum E { A(u8) }', 'struct S { #[educe(Foo)] #[educe(Bar)] a: u8, #[educe(Baz, Qux)] b: u8 }'):
+            cases.append(('c16g-%d' % gk, _Txt('#[educe(%s)]\n%s' % (a, body)))); gk += 1
     src = [(i, c.rust()) for i, c in cases]
     runs = [k1.run_real(src, repeat=3)] + [k1.run_real(src) for _ in range(processes - 1)]
     # history: the same inputs in another order in one process ("for all prior expansions in the same process")
@@ -714,6 +719,43 @@ def c13_subsets(seed, n):
                 fails.append(dict(key='c13:features:' + k1lib_hash(c.rust()), input=c.rust(), features=F, classes=modgap,
                                   what='with features [%s] the request contains %s and is accepted instead of refused' % (' '.join(F), ', '.join(modgap))))
     return fails, [], dict(stats, feature_sets=len(sets))
+
+# ---------------------------------------------------------------- stratified invalid requests
+def stratified(seed, n, pool=None, kinds=('struct', 'enum', 'union'), must=None, key='strat', per=30):
+    """every KIND of invalid construct the generator knows, evenly: a large pool of one-invalid-construct requests is
+    generated (cheap), bucketed by the generator's fault label, and up to `per` requests of every bucket are expanded.
+    A request the model refuses (the model's refusals are what the theorems of C13 / C20 are about) and the real macro
+    accepts is a failing input; any other disagreement is a K1 difference; a panic is reported for C17."""
+    pool = pool or list(gen.GENS.keys())
+    buckets = collections.defaultdict(list)
+    for i in range(20 * n):
+        m1 = [random.Random('%s-must-%d-%d' % (key, seed, i)).choice(list(x)) if isinstance(x, (tuple, list)) else x for x in must] if must else None
+        c = gen.gen_case('%s-%d-%d' % (key, seed, i), 0, pool, want_fault=True, kinds=kinds, must=m1)
+        if c.fault and len(buckets[c.fault]) < per:
+            buckets[c.fault].append(c)
+    cases = []
+    for lab in sorted(buckets):
+        for j, c in enumerate(buckets[lab]):
+            cases.append(('%s-%d' % (key, len(cases)), c))
+    real = k1.run_real([(i, c.rust()) for i, c in cases])
+    model = k1.run_model([(i, c.sx()) for i, c in cases])
+    fails, kdiffs = [], []
+    stats = collections.Counter(cases=len(cases), fault_kinds=len(buckets))
+    view = k1lib.get_view('outcome')
+    for i, c in cases:
+        r = outcome(real[i]); m = k1lib.classify(model[i], 'model')
+        stats['real_' + r[0]] += 1
+        if m[0] == 'ERR' and r[0] == 'OK':
+            fails.append(dict(key=key + ':' + k1lib_hash(c.rust()), input=c.rust(), fault=c.fault,
+                              what='a request with an invalid construct (%s) is accepted; the reference refuses it (%s)' % (c.fault, m[1])))
+        elif r[0] == 'PANIC':
+            fails.append(dict(key=key + ':panic:' + k1lib_hash(c.rust()), input=c.rust(), fault=c.fault,
+                              what='the macro does not return on this input (%s): %s' % (real[i][0], real[i][1][:160])))
+        else:
+            v, d = k1lib.compare_view(real[i], model[i], view, errkind=False)
+            if v == 'diff':
+                kdiffs.append(dict(stream=key, case=i, input=c.rust(), detail=d))
+    return fails, kdiffs, dict(stats)
 
 # ---------------------------------------------------------------- C03 (ranks that clash must be refused)
 def c03(seed, n):
